@@ -88,6 +88,11 @@ func (w *World) CheckIdentity(o *Obs, prop string) []Violation {
 	for _, h := range sdl.SortedKeys(o.Points) {
 		for _, f := range sdl.SortedKeys(o.Points[h]) {
 			for _, obj := range o.Points[h][f] {
+				if w.componentOf(obj) == h && obj != h {
+					// the holder holds an early proxy of itself (self-reference through a
+					// substitute): not judged, see DESIGN.md section 13
+					continue
+				}
 				see(obj, h+"."+f)
 			}
 		}
